@@ -128,6 +128,8 @@ type MFrame struct {
 	NextCUU   int // cursor-up count the next frame must start with
 	CUU       int // cursor-up count this frame starts with
 	ExtRev    map[int]bool
+	Visible   []int // bars whose main row survives the height limit, top to bottom
+	Ambiguous bool  // clipped frame whose cut depends on the order of equal priorities (or a lazy change)
 }
 
 type mcBar struct {
@@ -137,6 +139,8 @@ type mcBar struct {
 	parked bool
 	prio   int
 	sd     int // number of terminal frames rendered so far
+	fills  int // Fill calls so far
+	exts   int // extender calls so far
 	spec   *BarSpec
 	gone   bool // left the container (removed or popped out)
 	popped bool
@@ -156,6 +160,9 @@ type Sim struct {
 	FinalHeap []int        // bars still in the container at the end
 	LateSucc  []int        // successors parked behind an already flushed predecessor
 	Overwrote []int        // successors overwritten in the queue map
+	Errored   bool         // a filler/extender fault ended rendering
+	ErrBar    int
+	Clipped   bool // some frame could not show every bar of the container
 }
 
 func (s *Sim) fail(why string) { s.OK = false; s.Why = why }
@@ -178,10 +185,6 @@ func Simulate(sc *Scenario) *Sim {
 		height = sc.Cfg.PtyRows
 	}
 	for i := range sc.Bars {
-		if sc.Bars[i].FillErrAt > 0 || sc.Bars[i].ExtErrAt > 0 {
-			s.fail("faults")
-			return s
-		}
 		s.Bars = append(s.Bars, &mcBar{spec: &sc.Bars[i]})
 	}
 	idCount := 0
@@ -292,12 +295,53 @@ func Simulate(sc *Scenario) *Sim {
 			rowsTotal, popCount := 0, 0
 			type act struct{ bar, kind int }
 			var pushes []int
+			// every shown bar is rendered (filler and extender called) before flush
+			// looks at the first frame
+			failing := map[int]bool{}
+			for _, i := range shown {
+				x := s.Bars[i]
+				x.fills++
+				if x.spec.FillErrAt > 0 && x.fills == x.spec.FillErrAt {
+					failing[i] = true
+					continue
+				}
+				if x.spec.ExtRows > 0 || x.spec.ExtErrAt > 0 {
+					x.exts++
+					if x.spec.ExtErrAt > 0 && x.exts == x.spec.ExtErrAt {
+						failing[i] = true
+					}
+				}
+			}
+			errored := false
+			cut := false
+			popOld := map[int]int{} // bars popped in this cycle -> priority they had
 			for k := len(shown) - 1; k >= 0; k-- {
 				i := shown[k]
 				x := s.Bars[i]
+				if failing[i] {
+					if f.Unordered {
+						s.fail("fault in the frame after a lazy priority change: flush order unspecified")
+						return s
+					}
+					for _, j := range shown {
+						if j != i && s.Bars[j].prio == x.prio {
+							s.fail("fault on a bar whose priority ties with another bar: flush order unspecified")
+							return s
+						}
+					}
+					// flush returns the error: the bar it was looking at is not put
+					// back, the rest of the heap stays, nothing is written
+					x.inHeap, x.gone = false, true
+					errored = true
+					s.Errored, s.ErrBar = true, i
+					break
+				}
 				f.Prio[i] = x.prio
 				f.State[i] = *x.m
 				nrows := 1 + x.spec.ExtRows
+				if x.spec.ExtNoNL && x.spec.ExtRows > 0 {
+					nrows-- // an unterminated last extender line is dropped
+				}
 				used := 0
 				for r := 0; r < nrows; r++ {
 					if rowsTotal < height {
@@ -307,6 +351,13 @@ func Simulate(sc *Scenario) *Sim {
 				}
 				f.Rows[i] = used
 				f.ExtRev[i] = x.spec.ExtRev
+				if (x.spec.ExtRev && used >= 1) || (!x.spec.ExtRev && used == nrows) {
+					f.Visible = append([]int{i}, f.Visible...)
+				}
+				if used < nrows {
+					s.Clipped = true
+					cut = true
+				}
 				s.Displayed[i] = true
 				if !x.m.Terminal() {
 					continue
@@ -324,6 +375,7 @@ func Simulate(sc *Scenario) *Sim {
 						sb.prio = x.prio
 						pushes = append(pushes, succ)
 					} else if sc.Cfg.Pop && !x.spec.NoPop {
+						popOld[i] = x.prio
 						x.prio = popPrio
 						popPrio++
 						x.popped = true
@@ -340,6 +392,31 @@ func Simulate(sc *Scenario) *Sim {
 				}
 			}
 			_ = pushes
+			// bars that finish in the same cycle with equal priorities (or in the
+			// unordered frame after a lazy change) pop in unspecified order
+			for a, pa := range popOld {
+				for b, pb := range popOld {
+					if a != b && (pa == pb || f.Unordered) && s.Bars[b].prio < s.Bars[a].prio {
+						s.Bars[a].prio = s.Bars[b].prio
+					}
+				}
+			}
+			if cut {
+				seen := map[int]bool{}
+				for _, i := range shown {
+					if seen[f.Prio[i]] {
+						f.Ambiguous = true
+					}
+					seen[f.Prio[i]] = true
+				}
+				if f.Unordered {
+					f.Ambiguous = true
+				}
+			}
+			if errored {
+				s.Cancelled = true
+				continue
+			}
 			if n := rowsTotal - popCount; n > 0 {
 				f.NextCUU = n
 			}
